@@ -172,6 +172,8 @@ type variant struct {
 	// address poisonIP but carries and is signed with the key of poisonKey
 	poisonIP  netip.Addr
 	poisonKey *m.Address
+	// poisonByPing: the poisoning message is a first-contact ping (key in the ping header) instead of a peering request
+	poisonByPing bool
 }
 
 func withApx(c *capture, apx []byte) []byte {
@@ -408,6 +410,7 @@ func genVariants(r *rand.Rand, c *capture, all []*capture, idsByIP map[netip.Add
 					d := withApx(c, append(body, sig...))
 					vs = append(vs, variant{op: "inner-record-under-foreign-key", data: d, viaPeer: c.sender, field: "layers-resigned", depth: 1})
 					vs = append(vs, variant{op: "inner-record-under-foreign-key-after-refused-peering", data: d, viaPeer: c.sender, field: "layers-resigned", depth: 1, poisonIP: inner1.Router.IP, poisonKey: foreign})
+					vs = append(vs, variant{op: "inner-record-under-foreign-key-after-refused-first-contact-ping", data: d, viaPeer: c.sender, field: "layers-resigned", depth: 1, poisonIP: inner1.Router.IP, poisonKey: foreign, poisonByPing: true})
 				}
 			}
 		}
@@ -419,6 +422,45 @@ func genVariants(r *rand.Rand, c *capture, all []*capture, idsByIP map[netip.Add
 		vs = append(vs, variant{op: "appendix-truncated-signature-only", data: withApx(c, core.RandBytes(r, 64)), viaPeer: c.sender, field: "appendix", depth: 0})
 	}
 	return vs
+}
+
+// refusedPing lets the victim receive first-contact pings (hello and pong requests) whose header carries the key
+// of `key` while the frame claims source address ip (correctly signed with that key). The address does not derive
+// from that key: the victim must refuse them; what they leave behind must not help the forgery that follows.
+func refusedPing(res *core.Result, vc *victim, idV *m.Address, ip netip.Addr, key *m.Address, r *rand.Rand) bool {
+	for _, pingType := range []string{"hello", "pong"} {
+		hdr := router.PingHeader{PingID: r.Uint64() | 1, PingType: pingType, AddrHash: key.Hash, KeyType: key.Type, PublicKey: key.PublicKey}
+		hd, err := cbor.Marshal(&hdr)
+		if err != nil {
+			return true
+		}
+		body, _ := cbor.Marshal(map[string]any{"msg": "ping"})
+		data := append(append([]byte{1, byte(len(hd))}, hd...), body...)
+		f, err := vc.v.Inst.BuilderV.NewFrameV1(ip, idV.IP, frame.RouterPing, nil, data, nil)
+		if err != nil {
+			return true
+		}
+		f.SetTTL(0)
+		f.SetSequenceTime(time.Now().Round(time.Millisecond).Add(-time.Millisecond))
+		_ = f.SignRaw(key.PrivateKey)
+		f.SetTTL(32)
+		fd, _ := f.FrameDataWithMargins(0, 0)
+		cp := append([]byte(nil), fd...)
+		f.ReturnToPool()
+		before := vc.tableKey()
+		vc.ms.DeliverOn(&vmesh.Packet{From: 1, To: 0, Data: cp}, 0, 1)
+		if len(vc.ms.Panics) > 0 {
+			res.Violate("handler-panic:first-contact-ping-under-foreign-key", fmt.Sprint(vc.ms.Panics[0]), nil)
+			return false
+		}
+		if vc.tableKey() != before {
+			res.Violate("forged-ping-changed-table", fmt.Sprintf("a first-contact %s ping naming %s under a foreign key changed the routing table", pingType, ip), nil)
+			return false
+		}
+		time.Sleep(1100 * time.Microsecond)
+	}
+	res.Count("refused_first_contact_pings_before_forgery", 1)
+	return true
 }
 
 // refusedPeering lets the victim receive a peering request that claims address ip with the key pair of key
@@ -506,7 +548,11 @@ func runVariants(res *core.Result, r *rand.Rand, caps []*capture, idV *m.Address
 					res.Inconcl("victim: %v", err)
 					return
 				}
-				if !refusedPeering(res, vc, v.poisonIP, v.poisonKey, r) {
+				if v.poisonByPing {
+					if !refusedPing(res, vc, idV, v.poisonIP, v.poisonKey, r) {
+						return
+					}
+				} else if !refusedPeering(res, vc, v.poisonIP, v.poisonKey, r) {
 					return
 				}
 			}
